@@ -1134,3 +1134,56 @@ func (s *mcAuthSession) AuthMechanisms() []string { return []string{"PLAIN"} }
 func (s *mcAuthSession) Auth(mech string) (sasl.Server, error) {
 	return sasl.NewPlainServer(func(identity, username, password string) error { return nil }), nil
 }
+
+
+// an endless line: the server answers 500 once and CLOSES, however long the peer keeps sending
+func TestScenarioC19_EndlessLineIsCutOff(t *testing.T) {
+	for _, limit := range []int{100, 2000} {
+		be := &mcBackend{got: map[string]string{}, errs: map[string]error{}}
+		s := smtp.NewServer(be)
+		s.Domain = "verif"
+		s.MaxLineLength = limit
+		s.ErrorLog = log.New(io.Discard, "", 0)
+		ln, err := net.Listen("tcp", "127.0.0.1:0")
+		if err != nil {
+			t.Fatal(err)
+		}
+		go s.Serve(ln)
+		cl := mcDial(t, ln.Addr().String())
+		cl.send("EHLO x\r\n")
+		cl.expect("250")
+		stop := make(chan struct{})
+		sent := make(chan int, 1)
+		go func() {
+			n := 0
+			junk := []byte(strings.Repeat("A", 1024))
+			for {
+				select {
+				case <-stop:
+					sent <- n
+					return
+				default:
+				}
+				cl.c.SetWriteDeadline(time.Now().Add(200 * time.Millisecond))
+				k, err := cl.c.Write(junk)
+				n += k
+				if err != nil {
+					sent <- n
+					return
+				}
+				time.Sleep(20 * time.Millisecond)
+			}
+		}()
+		cl.expect("500")
+		// from now on the connection must end: EOF (or a reset) within two seconds, although octets keep coming
+		cl.c.SetReadDeadline(time.Now().Add(2 * time.Second))
+		_, rerr := cl.r.ReadString('\n')
+		close(stop)
+		n := <-sent
+		if ne, ok := rerr.(net.Error); ok && ne.Timeout() {
+			t.Errorf("limit %d: two seconds after the 500 the server still keeps the connection of a peer that goes on sending (%d octets taken so far)", limit, n)
+		}
+		cl.c.Close()
+		s.Close()
+	}
+}
